@@ -214,6 +214,25 @@ def gen(rng: Rng, tier, i):
                                       {"dataset": {"center_scan_positions": True}},
                                       {"dataset": {"descan_shifts_constant": True},
                                        "object": {"tv_weight_xy": 1e-3}}])
+    c3 = rng.fork("cons3")
+    if c3.chance(0.3):
+        # ANY override of the library's constraint tables has to survive an interruption, in particular
+        # an explicitly falsy value whose default is truthy and vice versa (round 14, S-C05n): 1-3
+        # overrides drawn from the whole table instead of the short hand-picked list above
+        table = {"object": [["positivity", False], ["fix_potential_baseline", True],
+                            ["fix_potential_baseline_factor", 0.5], ["identical_slices", True],
+                            ["tv_weight_z", 0.1], ["tv_weight_xy", 0.1],
+                            ["surface_zero_weight", 0.1], ["gaussian_sigma", 0.8], ["butterworth_order", 2],
+                            ["q_lowpass", 0.5], ["q_highpass", 0.05], ["tv_weight_xy", 0],
+                            ["gaussian_sigma", None], ["positivity", False]],
+                 "probe": [["orthogonalize_probe", False], ["center_probe", True], ["tv_weight", 0.1],
+                           ["tv_weight", 0.0], ["center_probe", False]]}
+        cons = {k: dict(v) for k, v in (cfg["constraints"] or {}).items() if k == "dataset"}
+        for _ in range(c3.pick([1, 1, 2, 3])):
+            model = c3.pick(["object", "object", "probe"])
+            k_, v_ = c3.pick(table[model])
+            cons.setdefault(model, {})[k_] = v_
+        cfg["constraints"] = cons
     ops = [{"op": "recon", "n": rng.pick([0, 1, 2, 3, 4])}]
     lng = rng.fork("long")
     if lng.chance(0.04):      # something that only matters after many iterations
@@ -363,9 +382,10 @@ def _cmp_exact(old, new):
     out = []
     if old["num_iters"] != new["num_iters"]:
         out.append(f"num_iters {old['num_iters']}->{new['num_iters']}")
-    if not np.array_equal(old["iter_losses"], new["iter_losses"]):
+    # equal_nan: a configuration that has run into NaN has lost nothing by carrying the NaN along
+    if not np.array_equal(old["iter_losses"], new["iter_losses"], equal_nan=True):
         out.append("iter_losses")
-    if not np.array_equal(old["val_losses"], new["val_losses"]):
+    if not np.array_equal(old["val_losses"], new["val_losses"], equal_nan=True):
         out.append("val_iter_losses")
     if old["val_split"] != new["val_split"]:
         out.append(f"val_split {old['val_split']}->{new['val_split']}")
@@ -514,6 +534,12 @@ def run(plan):
         bump(probes, "learnable_probe_tilt")
     if "dataset" in (cfg.get("constraints") or {}):
         bump(probes, "dataset_constraints")
+    _truthy_default = {"positivity", "orthogonalize_probe", "butterworth_order", "fix_potential_baseline_factor"}
+    for _m, _d in (cfg.get("constraints") or {}).items():
+        for _k, _v in _d.items():
+            if _m != "dataset" and (bool(_v) != (_k in _truthy_default)):
+                bump(probes, "constraint_truthiness_differs_from_default")
+                break
     if cfg["loss"] in ("poisson", "l1_intensity"):
         bump(probes, "loss_" + cfg["loss"])
     if cfg["obj_type"] != "complex":
